@@ -6,6 +6,7 @@ mod jsoncaps;
 mod leaf;
 mod leafapi;
 mod policy;
+mod provers;
 mod pool;
 mod publish;
 mod wrapper;
@@ -41,6 +42,9 @@ fn main() -> Result<()> {
         "leaf-replay" => leaf::replay(&args[2], &args[3], seed(), args[4].parse()?),
         "leaf-record" => leaf::record(&args[2], args[3].parse()?, seed()),
         "leaf-selftest" => leaf::selftest(),
+        "commit-replay" => provers::commit_replay(&args[2], &args[3], seed()),
+        "pub-commit-replay" => provers::pub_commit_replay(&args[2], &args[3], seed()),
+        "shuffle-record" => provers::shuffle_record(&args[2], args[3].parse()?, args[4].parse()?, args[5].parse()?, seed()),
         "leafapi-replay" => leafapi::api_replay(&args[2], &args[3], seed(), args[4].parse()?),
         "merkle-replay" => leafapi::merkle_replay(&args[2], &args[3], seed()),
         _ => Err(anyhow!("unknown subcommand {cmd}")),
